@@ -209,7 +209,7 @@ func init() {
 	})
 	gen.Register("payload", func(c *gen.Ctx) error {
 		return replayOr(c, "payload", func() *payloadIn {
-			p := genPayload(c.R, c.Wide)
+			p := genPayloadRT(c.R, c.Wide)
 			return &p
 		}, func(in *payloadIn) any { return runPayload(in) })
 	})
